@@ -43,6 +43,10 @@ pub struct ChildCase {
     pub nodes: Vec<String>,
     pub members: Vec<FMem>, // in flat declaration order (already permuted)
     pub ghosts: Vec<(String, String, i64)>, // (node path, field, marker)
+    /// tuple structs all the way down: the flat struct, the counterpart and every nested struct are positional;
+    /// child paths, child_parents keys, member renames and ghosts fields are indices (`#[child(1)] #[map(0)]`,
+    /// `#[child_parents(1: N)]`, `#[ghosts(1@2: {..})]`)
+    pub positional: bool,
     pub tags: Vec<String>,
 }
 
@@ -50,6 +54,7 @@ pub struct FlatOpts {
     pub max_members: usize,
     pub max_ghosts: usize,
     pub max_depth: usize,
+    pub positional: bool,
 }
 
 pub fn gen_child(ctx: &mut Ctx, o: &FlatOpts) -> Option<ChildCase> {
@@ -77,6 +82,9 @@ pub fn gen_child(ctx: &mut Ctx, o: &FlatOpts) -> Option<ChildCase> {
         let ni = ctx.choose(nodes.len() + 1);
         let node = if ni == 0 { String::new() } else { nodes[ni - 1].clone() };
         let leaf = [Leaf::Plain, Leaf::Rename, Leaf::Expr][ctx.choose(3)];
+        if o.positional && leaf == Leaf::Rename {
+            return ctx.reject(); // every positional member carries its designated index anyway
+        }
         marker += 1;
         members.push(FMem { name: ["a", "b", "c", "d", "e"][k].to_string(), node, leaf, marker, orig: k });
     }
@@ -112,14 +120,85 @@ pub fn gen_child(ctx: &mut Ctx, o: &FlatOpts) -> Option<ChildCase> {
     if ghosts.iter().any(|g| !g.0.is_empty() && !members.iter().any(|m| m.node == g.0)) {
         tags.push("ghost-only-node".into());
     }
+    let mut case = ChildCase { nodes, members, ghosts, positional: o.positional, tags: vec![] };
+    if o.positional {
+        tags.push("positional".into());
+        tags.push(if case.pos_ordered() { "pos-ordered".into() } else { "pos-unordered".into() });
+    }
     tags.sort();
     tags.dedup();
-    Some(ChildCase { nodes, members, ghosts, tags })
+    case.tags = tags;
+    Some(case)
 }
 
 impl ChildCase {
+    /// positional cases only: does the order in which the flat struct declares things coincide with the designated
+    /// positions (members by index, then nested structs, then ghosts) in every struct of the counterpart?  Where it does
+    /// not, the conversion has to place values by designated index rather than by declaration order.
+    pub fn pos_ordered(&self) -> bool {
+        let under = |m: &FMem, nd: &str| m.node == nd || m.node.starts_with(&format!("{}.", nd));
+        let mut structs: Vec<String> = vec![String::new()];
+        structs.extend(self.nodes.iter().cloned());
+        for x in &structs {
+            let mut seq: Vec<usize> = vec![];
+            let mut ms: Vec<(usize, &FMem)> = self.members.iter().enumerate().filter(|(_, m)| m.node == *x).collect();
+            ms.sort_by_key(|(_, m)| m.orig);
+            seq.extend(ms.iter().map(|(i, _)| *i));
+            let mut ghost_only = 0;
+            for c in self.nodes.iter().filter(|c| parent_of(c) == x.as_str()) {
+                match self.members.iter().position(|m| under(m, c)) {
+                    Some(i) => {
+                        if ghost_only > 0 {
+                            return false; // a ghost-only nested struct is rendered after every struct that has members
+                        }
+                        seq.push(i)
+                    }
+                    None => ghost_only += 1,
+                }
+            }
+            if ghost_only > 1 || seq.windows(2).any(|w| w[0] >= w[1]) {
+                return false;
+            }
+        }
+        true
+    }
     fn target(&self, m: &FMem) -> String {
+        if self.positional {
+            // designated index = position in the node's field list (members by identity, then nested structs, then ghosts)
+            let mut ms: Vec<&FMem> = self.members.iter().filter(|x| x.node == m.node).collect();
+            ms.sort_by_key(|x| x.orig);
+            return ms.iter().position(|x| x.orig == m.orig).unwrap().to_string();
+        }
         if m.leaf == Leaf::Rename { format!("x{}", m.name) } else { m.name.clone() }
+    }
+    /// the segment under which `node` hangs in its parent, as written in paths
+    fn seg(&self, node: &str) -> String {
+        if !self.positional {
+            return last_seg(node).to_string();
+        }
+        let ty = ty_of(node);
+        self.node_fields(parent_of(node)).iter().position(|f| f.1 == ty).unwrap().to_string()
+    }
+    /// the child path of `node` as written in instructions
+    pub fn path_text(&self, node: &str) -> String {
+        let mut segs = vec![];
+        let mut cur = node;
+        while !cur.is_empty() {
+            segs.push(self.seg(cur));
+            cur = parent_of(cur);
+        }
+        segs.reverse();
+        // `1.0` would lex as a float literal: positional paths are written `1 .0`
+        segs.join(if self.positional { " ." } else { "." })
+    }
+    fn ghost_field(&self, g: &(String, String, i64)) -> String {
+        if !self.positional {
+            return g.1.clone();
+        }
+        // positions inside a struct: members (by identity), nested structs, ghosts
+        let nm = self.members.iter().filter(|x| x.node == g.0).count() + self.nodes.iter().filter(|c| parent_of(c) == g.0).count();
+        let gi = self.ghosts.iter().filter(|x| x.0 == g.0).position(|x| x.1 == g.1).unwrap();
+        (nm + gi).to_string()
     }
     pub fn nontrivial(&self) -> bool {
         true
@@ -127,27 +206,28 @@ impl ChildCase {
     pub fn item(&self, name: &str, both: bool) -> Item {
         let mut fields = vec![];
         for m in &self.members {
-            let mut f = Field::named(&m.name, "i32");
+            let mut f = if self.positional { Field::pos("i32") } else { Field::named(&m.name, "i32") };
             if !m.node.is_empty() {
-                f.attrs.push(Instr::new("child", None, &m.node));
+                f.attrs.push(Instr::new("child", None, &self.path_text(&m.node)));
             }
-            match m.leaf {
-                Leaf::Plain => {}
-                Leaf::Rename => f.attrs.push(Instr::new("map", None, &self.target(m))),
-                Leaf::Expr => f.attrs.push(Instr::new("map", None, &format!("~ + {}", m.marker))),
+            match (m.leaf, self.positional) {
+                (Leaf::Plain, false) => {}
+                (Leaf::Plain, true) | (Leaf::Rename, _) => f.attrs.push(Instr::new("map", None, &self.target(m))),
+                (Leaf::Expr, false) => f.attrs.push(Instr::new("map", None, &format!("~ + {}", m.marker))),
+                (Leaf::Expr, true) => f.attrs.push(Instr::new("map", None, &format!("{}, ~ + {}", self.target(m), m.marker))),
             }
             fields.push(f);
         }
-        let mut it = Item::new_struct(name, Shape::Named, fields);
+        let mut it = Item::new_struct(name, if self.positional { Shape::Tuple } else { Shape::Named }, fields);
         it.attrs.push(Instr::new("map", None, "T"));
         it.attrs.push(Instr::new("into_existing", None, "T"));
         if both {
             it.attrs.push(Instr::new("try_map", None, "Tf, Er"));
             it.attrs.push(Instr::new("try_into_existing", None, "Tf, Er"));
         }
-        it.attrs.push(Instr::new("child_parents", None, &self.nodes.iter().map(|n| format!("{}: {}", n, ty_of(n))).collect::<Vec<_>>().join(", ")));
+        it.attrs.push(Instr::new("child_parents", None, &self.nodes.iter().map(|n| format!("{}: {}", self.path_text(n), ty_of(n))).collect::<Vec<_>>().join(", ")));
         if !self.ghosts.is_empty() {
-            it.attrs.push(Instr::new("ghosts", None, &self.ghosts.iter().map(|(n, f, m)| if n.is_empty() { format!("{}: {{ {} }}", f, m) } else { format!("{}@{}: {{ {} }}", n, f, m) }).collect::<Vec<_>>().join(", ")));
+            it.attrs.push(Instr::new("ghosts", None, &self.ghosts.iter().map(|g| if g.0.is_empty() { format!("{}: {{ {} }}", self.ghost_field(g), g.2) } else { format!("{}@{}: {{ {} }}", self.path_text(&g.0), self.ghost_field(g), g.2) }).collect::<Vec<_>>().join(", ")));
         }
         it
     }
@@ -160,11 +240,16 @@ impl ChildCase {
         for m in ms {
             v.push((self.target(m), "i32".into()));
         }
+        for c in self.nodes.iter().filter(|c| parent_of(c) == node) {
+            v.push((last_seg(c).to_string(), ty_of(c)));
+        }
         for g in self.ghosts.iter().filter(|g| g.0 == node) {
             v.push((g.1.clone(), "i32".into()));
         }
-        for c in self.nodes.iter().filter(|c| parent_of(c) == node) {
-            v.push((last_seg(c).to_string(), ty_of(c)));
+        if self.positional {
+            for (i, f) in v.iter_mut().enumerate() {
+                f.0 = i.to_string();
+            }
         }
         v
     }
@@ -172,11 +257,18 @@ impl ChildCase {
     pub fn defs(&self) -> String {
         let mut o = String::new();
         let d = "#[derive(Clone, Debug, PartialEq, Default)]";
+        let body = |nd: &str| {
+            if self.positional {
+                format!("({});", self.node_fields(nd).iter().map(|(_, t)| format!("pub {}", t)).collect::<Vec<_>>().join(", "))
+            } else {
+                format!(" {{ {} }}", self.node_fields(nd).iter().map(|(f, t)| format!("pub {}: {}", f, t)).collect::<Vec<_>>().join(", "))
+            }
+        };
         for nd in &self.nodes {
-            let _ = writeln!(o, "{} pub struct {} {{ {} }}", d, ty_of(nd), self.node_fields(nd).iter().map(|(f, t)| format!("pub {}: {}", f, t)).collect::<Vec<_>>().join(", "));
+            let _ = writeln!(o, "{} pub struct {}{}", d, ty_of(nd), body(nd));
         }
         for t in ["T", "Tf"] {
-            let _ = writeln!(o, "{} pub struct {} {{ {} }}", d, t, self.node_fields("").iter().map(|(f, t)| format!("pub {}: {}", f, t)).collect::<Vec<_>>().join(", "));
+            let _ = writeln!(o, "{} pub struct {}{}", d, t, body(""));
         }
         o
     }
@@ -189,13 +281,26 @@ impl ChildCase {
         for m in ms {
             parts.push(format!("{}: {}", self.target(m), mval(m)));
         }
-        for g in self.ghosts.iter().filter(|g| g.0 == node) {
-            parts.push(format!("{}: {}", g.1, gval(g)));
-        }
         for c in self.nodes.iter().filter(|c| parent_of(c) == node) {
             parts.push(format!("{}: {}", last_seg(c), self.node_literal(c, &ty_of(c), mval, gval)));
         }
+        for g in self.ghosts.iter().filter(|g| g.0 == node) {
+            parts.push(format!("{}: {}", g.1, gval(g)));
+        }
+        if self.positional {
+            // parts are in node_fields order = index order
+            return format!("{}({})", tyname, parts.iter().map(|p| p.splitn(2, ": ").nth(1).unwrap().to_string()).collect::<Vec<_>>().join(", "));
+        }
         format!("{} {{ {} }}", tyname, parts.join(", "))
+    }
+
+    /// literal of the flat deriving struct
+    pub fn s_literal(&self, vals: &dyn Fn(&FMem) -> i64) -> String {
+        if self.positional {
+            format!("S({})", self.members.iter().map(|m| vals(m).to_string()).collect::<Vec<_>>().join(", "))
+        } else {
+            format!("S {{ {} }}", self.members.iter().map(|m| format!("{}: {}", m.name, vals(m))).collect::<Vec<_>>().join(", "))
+        }
     }
 
     pub fn render_module(&self) -> String {
@@ -204,7 +309,7 @@ impl ChildCase {
         o.push_str(&self.defs());
         let _ = writeln!(o, "#[derive(Clone, Debug, PartialEq, Default, o2o::o2o)]\n{}", self.item("S", true).render());
         let _ = writeln!(o, "pub fn run(r: &mut Rec) {{");
-        let s_lit = |vals: &dyn Fn(&FMem) -> i64| format!("S {{ {} }}", self.members.iter().map(|m| format!("{}: {}", m.name, vals(m))).collect::<Vec<_>>().join(", "));
+        let s_lit = |vals: &dyn Fn(&FMem) -> i64| self.s_literal(vals);
         for assign in 0..2i64 {
             let tv = move |m: &FMem| 1000 * (m.orig as i64 + 1) + assign * 37;
             let sv = move |m: &FMem| 100_000 + 1000 * (m.orig as i64 + 1) + assign * 41;
